@@ -137,7 +137,7 @@ theorem nobreaking_args_permissive (o n : SchemaD) (h : diffSchema o n 2 = [])
         left; right
         unfold diffFieldArguments
         simp only [List.mem_append]
-        left
+        left; left
         apply List.mem_filterMap.mpr
         exact ⟨a, ha, by simp [hb, hs]⟩
       · have : sev "FieldArgumentChangedType" false = 2 := by decide
@@ -183,5 +183,8 @@ private def sNew : SchemaD :=
 example : (diffSchema sOld sNew 2).map (·.cls) = ["FieldRemoved"] := by decide
 example : diffSchema sNew sNew 0 = [] := by decide
 example : (diffSchema sNew sOld 0).map (·.cls) = ["FieldChangedType", "FieldArgumentChangedType", "FieldAdded"] := by decide
+/-- the compatible retypings (`Int` -> `Int!` on the field, `Int!` -> `Int` on the argument) are reported, as COMPATIBLE -/
+example : (diffSchema sOld sNew 0).map (fun c => (c.cls, c.severity))
+    = [("FieldChangedType", 0), ("FieldArgumentChangedType", 0), ("FieldRemoved", 2)] := by decide
 
 end PyGql.Props.C20
